@@ -501,12 +501,20 @@ class ProgGen:
                 p, v = self.pick_path(base)
                 q, _ = self.query_for_path(p, root=base)
                 lets.append((name, ('q', q)))
-            elif r < 0.8:
+            elif r < 0.8 and self.f.get('literal_lets', True):
                 lets.append((name, ('lit', gen_literal(rng))))
+            elif r < 0.8:
+                p, v = self.pick_path(base)
+                q, _ = self.query_for_path(p, root=base)
+                lets.append((name, ('q', q)))
             elif self.f['functions']:
                 lets.append((name, self.gen_fn(scope_vars)))
-            else:
+            elif self.f.get('literal_lets', True):
                 lets.append((name, ('lit', gen_literal(rng))))
+            else:
+                p, v = self.pick_path(base)
+                q, _ = self.query_for_path(p, root=base)
+                lets.append((name, ('q', q)))
         return lets
 
     def gen_block(self, base, depth, scope_vars, at_rule_level=False, rule_names=(), param_rules=()):
